@@ -13,6 +13,10 @@ from ptera.probe import Probe, global_probes
 ORIG = LW.f.__code__
 
 
+class Abort(BaseException):
+    pass
+
+
 def run_case(case):
     wrap = case.get("sel") == "wrap"
     # wrap: a selector with two focuses - every call gives a "begin" event (a is bound) and an "end" event (r is bound)
@@ -26,8 +30,14 @@ def run_case(case):
                 sid, kind = op[1], op[2]
                 src = p["a"]
                 obs = src if kind == "accum" else getattr(src, kind)()
-                rec = {"kind": kind, "vals": [], "done": 0, "err": 0, "bare": len(op) > 3}
-                if len(op) > 3:
+                rec = {"kind": kind, "vals": [], "done": 0, "err": 0, "bare": len(op) > 3 and op[3] == "bare"}
+                if len(op) > 3 and op[3] == "boom":
+                    # a subscriber whose completion callback raises something that is not an Exception (an abort request)
+                    def done(rec=rec):
+                        rec["done"] += 1
+                        raise Abort("completion")
+                    obs.subscribe(lambda v, rec=rec: rec["vals"].append(v), lambda e, rec=rec: rec.__setitem__("err", rec["err"] + 1), done)
+                elif len(op) > 3:
                     obs.subscribe(lambda v, rec=rec: rec["vals"].append(v))
                 else:
                     obs.subscribe(lambda v, rec=rec: rec["vals"].append(v), lambda e, rec=rec: rec.__setitem__("err", rec["err"] + 1),
@@ -78,7 +88,7 @@ def run_case(case):
                     LW.f(op[1])
                 finally:
                     LW.g = orig_g
-        except Exception as ex:
+        except (Exception, Abort) as ex:
             outcome = type(ex).__name__
         cur = HandlerCollection.current.get()
         steps.append({"op": op, "outcome": outcome,
